@@ -787,6 +787,11 @@ func (s *Server) startIPCPNegotiation(session *Session) {
 
 // handleIPCP handles IPCP packets
 func (s *Server) handleIPCP(session *Session, data []byte) {
+	// RFC 1661 3.4: NCP packets received before authentication has succeeded are silently discarded
+	if !session.Authenticated {
+		return
+	}
+
 	pkt, err := ParseLCPPacket(data)
 	if err != nil {
 		return
